@@ -2,6 +2,7 @@
 Exhaustive enumeration of import DAGs x per-edge (import form, path spelling, placement), each project
 executed in memory (`run`) and from files (`compile` + `execute`) against a reference loader model."""
 import itertools
+import re
 import os
 
 from ..core import driver
@@ -169,7 +170,8 @@ class C11(Check):
             "name through the module and through `import x from`, assignment to an exported member).  Each project is run in memory and "
             "from files.  State of the reference loader = (set of initialised modules, per-module counter and list); every project is one "
             "model trace replayed on the implementation.  Import statements that are EXECUTED MORE THAN ONCE: in a function / method called several times, in a loop body, "
-            "in both arms of an if, in a nested function, in a function and at module level (either order), in two functions - under 4 import forms / spellings: one initialisation, one shared instance.")
+            "in both arms of an if, in a nested function, in a function and at module level (either order), in two functions - under 4 import forms / spellings: one initialisation, one shared instance.  "
+            "Module NAMES: the graphs with n <= 4 (n <= 2 all edge combinations, n = 3 one deviating edge, n = 4 default edges, sub-directory variants) are repeated with module names that are suffixes / prefixes of one another and of `main` (ain, in, n; mai, ma, m; m1, m11, m_1).")
     assumptions = ["a module in a sub-directory imports only modules of that sub-directory (the grammar cannot name a parent directory)", "a module's exported counter is mutated through its own exported closures"]
     chunksize = 8
     quick_cap_s = 300
@@ -266,7 +268,9 @@ class C11(Check):
                             yield ("vis", seq, target, form)
         reps = [("rep", w, a, b) for w in self.REP_WHERE for a in range(len(self.REP_FORMS)) for b in range(len(self.REP_FORMS))
                 if b == 0 or w in ("fn-then-module", "module-then-fn", "two-functions", "if-arm-in-fn")]
-        ls = [("Lr-import-statements-executed-more-than-once", reps), ("L0-negative-cases", list(negatives())), (f"Lv-visibility-matrix-modules-of-<={2 if tier == 'quick' else 3}-declarations", list(visibility(2 if tier == "quick" else 3))),
+        rens = [("ren", sch, c) for sch in self.RENAMES for c in list(all_combos(2)) + list(deviating(3, 1)) + list(deviating(4, 0))] + \
+               [("ren", sch, c) for sch in ("suffix-chain", "suffix-chain-reversed") for c in subdirs_dev(0, ns=(2, 3))]
+        ls = [("Lr-import-statements-executed-more-than-once", reps), ("Ln-module-names-that-are-suffixes-or-prefixes-of-one-another", rens), ("L0-negative-cases", list(negatives())), (f"Lv-visibility-matrix-modules-of-<={2 if tier == 'quick' else 3}-declarations", list(visibility(2 if tier == "quick" else 3))),
               ("L0b-leaf-modules-without-exports", noexports(4, 1) if tier == "quick" else noexports(5, 1))]
         if tier == "quick":
             ls += [("L1-n<=2-all-combinations", all_combos(2)), ("L2-n=3-<=2-deviating-edges", deviating(3, 2)),
@@ -280,6 +284,8 @@ class C11(Check):
         return ls
 
     def describe(self, case):
+        if case[0] == "ren":
+            return dict(self.describe(case[2]), module_names=self.RENAMES[case[1]])
         if case[0] == "rep":
             return {"import executed more than once": case[1], "forms": [self.REP_FORMS[case[2]][0], self.REP_FORMS[case[3]][0]]}
         if case[0] == "neg":
@@ -289,7 +295,17 @@ class C11(Check):
         n, edges, combo, sd = case[:4]
         return {"noexp": list(case[4]) if len(case) > 4 else [], "n": n, "edges": [f"{name(a)}->{name(b)}:{'/'.join(EDGE_PARAMS[c])}" for (a, b), c in zip(edges, combo)], "subdir": list(sd)}
 
+    # module NAMES that are suffixes / prefixes of one another (and of the entry module's name): a module is identified by its whole path, never by a part of it
+    RENAMES = {"suffix-chain": {"m1": "ain", "m2": "in", "m3": "n", "m4": "xn"}, "suffix-chain-reversed": {"m1": "n", "m2": "in", "m3": "ain", "m4": "xmain"},
+               "prefix-chain": {"m1": "mai", "m2": "ma", "m3": "mainx", "m4": "m"}, "underscore-and-digits": {"m1": "m_1", "m2": "m1", "m3": "m11", "m4": "_m1"}}
+
     def project(self, case):
+        if case[0] == "ren":
+            files, exp, params = self.project(case[2])
+            ren = self.RENAMES[case[1]]
+            rx = re.compile(r"(?<![A-Za-z0-9_])(m[1-4])(?![A-Za-z0-9_])")
+            sub = lambda t: rx.sub(lambda m: ren[m.group(1)], t)
+            return {sub(k): sub(v) for k, v in files.items()}, [sub(l) for l in exp], params
         n, edges, combo, sd = case[:4]
         ne = frozenset(case[4]) if len(case) > 4 else frozenset()
         params = {e: EDGE_PARAMS[c] for e, c in zip(edges, combo)}
@@ -488,14 +504,17 @@ class C11(Check):
                 spell = sorted({p[1] for p in params.values()})
                 kind = "double-initialisation" if dup else ("failure" if res.exit != 0 else "trace")
                 forms = sorted({p[0] for p in params.values()})
-                viol.append({"sig": {"kind": kind, "path": path, "spellings": ",".join(spell), "subdir": bool(case[3]),
+                viol.append({"sig": {"kind": kind, "path": path, "spellings": ",".join(spell), "subdir": bool((case[2] if case[0] == "ren" else case)[3]),
                                      "names_var": "names+var" in forms},
                              "what": f"{desc} [{path}]: " + (f"module initialised more than once: {dup}; " if dup else "") +
                                      f"line {i}: expected {exp[i] if i < len(exp) else '<end>'!r} got {lines[i] if i < len(lines) else '<end>'!r} (exit {res.exit})",
                              "detail": {"files": files, "res": res.brief(), "expected_lines": exp, "path": path}})
+        renamed = case[0] == "ren"
+        if renamed:
+            case = case[2]
         n, edges, combo, sd = case[:4]
         return {"outcome": "ok" + ("-DIFF" if viol else ""), "viol": viol, "nontrivial": len(edges) >= 1,
-                "tags": [f"n{n}", f"edges{len(edges)}"] + (["subdir"] if sd else []) + (["noexp"] if len(case) > 4 and case[4] else []) + (["diamond"] if any(
+                "tags": [f"n{n}", f"edges{len(edges)}"] + (["renamed"] if renamed else []) + (["subdir"] if sd else []) + (["noexp"] if len(case) > 4 and case[4] else []) + (["diamond"] if any(
                     sum(1 for (_, b) in edges if b == j) > 1 for j in range(n)) else []),
                 "counters": {"states": len(exp) + 1, "transitions": len(exp), "traces": 2}}
 
